@@ -630,6 +630,7 @@ func (r *crun) reader(rd Round, doneCh chan struct{}) {
 	buf := make([]byte, 4096)
 	start := len(r.got)
 	pi, ri, zero := 0, 0, 0
+	diverged := false
 	for {
 		cs.mu.Lock()
 		for {
@@ -693,6 +694,16 @@ func (r *crun) reader(rd Round, doneCh chan struct{}) {
 		cs.cond.Broadcast()
 		over := len(r.got) > len(cs.expected)
 		evident := false
+		if !over && !bytes.Equal(r.got[len(r.got)-n:], cs.expected[len(r.got)-n:len(r.got)]) {
+			diverged = true
+		}
+		if diverged {
+			// Only whole-frame loss (the known finding) needs the end-of-round probe to be told apart;
+			// anything else is a mismatch right now.
+			if ok, _ := explain(r.got, cs.payloads, true); !ok {
+				evident = true
+			}
+		}
 		for _, p := range cs.probes {
 			if i := bytes.Index(r.got, p.data); i >= 0 && i != p.start {
 				evident = true
@@ -712,39 +723,55 @@ func (r *crun) expectedLen() int {
 	return len(r.cs.expected)
 }
 
-// explain reports whether got is the concatenation of a subsequence of frames and which frames
-// are not part of it.
-func explain(got []byte, frames [][]byte) (bool, []int) {
+// explain reports whether got is the concatenation of a subsequence of frames (if partial is set,
+// the last frame used may be cut short) and returns the indexes of the frames used.
+func explain(got []byte, frames [][]byte, partial bool) (bool, []int) {
 	type key struct{ k, pos int }
 	dead := map[key]bool{}
-	var skipped []int
+	var used []int
 	var rec func(k, pos int) bool
 	rec = func(k, pos int) bool {
 		if pos == len(got) {
-			for i := k; i < len(frames); i++ {
-				skipped = append(skipped, i)
-			}
 			return true
 		}
 		if k == len(frames) || dead[key{k, pos}] {
 			return false
 		}
-		if f := frames[k]; len(f) > 0 && bytes.HasPrefix(got[pos:], f) {
-			if rec(k+1, pos+len(f)) {
+		f := frames[k]
+		if len(f) > 0 {
+			if bytes.HasPrefix(got[pos:], f) {
+				used = append(used, k)
+				if rec(k+1, pos+len(f)) {
+					return true
+				}
+				used = used[:len(used)-1]
+			} else if partial && bytes.HasPrefix(f, got[pos:]) {
+				used = append(used, k)
 				return true
 			}
 		}
-		n := len(skipped)
-		skipped = append(skipped, k)
 		if rec(k+1, pos) {
 			return true
 		}
-		skipped = skipped[:n]
 		dead[key{k, pos}] = true
 		return false
 	}
 	ok := rec(0, 0)
-	return ok, skipped
+	return ok, used
+}
+
+func missing(used []int, n int) []int {
+	in := map[int]bool{}
+	for _, i := range used {
+		in[i] = true
+	}
+	var out []int
+	for i := 0; i < n; i++ {
+		if !in[i] {
+			out = append(out, i)
+		}
+	}
+	return out
 }
 
 func (r *crun) judgeStream() {
@@ -761,7 +788,8 @@ func (r *crun) judgeStream() {
 		}
 		return
 	}
-	if ok, skipped := explain(r.got, own); ok {
+	if ok, used := explain(r.got, own, false); ok {
+		skipped := missing(used, len(own))
 		r.st.label("known-drop-seen")
 		r.v.set(knownDropSig, "Read returned %d of the %d bytes the TNC sent for this connection: data frame(s) number %v of %d are missing as a whole, all other frames arrived in order (unread backlog was at most %d frames)", len(r.got), len(exp), skipped, len(own), r.maxUnread)
 		return
@@ -770,13 +798,9 @@ func (r *crun) judgeStream() {
 	for i, d := range all {
 		payloads[i] = d.data
 	}
-	if ok, skipped := explain(r.got, payloads); ok {
-		sk := map[int]bool{}
-		for _, i := range skipped {
-			sk[i] = true
-		}
-		for i, d := range all {
-			if !d.own && !sk[i] {
+	if ok, used := explain(r.got, payloads, true); ok {
+		for _, i := range used {
+			if d := all[i]; !d.own {
 				r.v.set("stream-foreign-frame-delivered", "Read delivered the payload of a frame that does not belong to the connection (%s, D frame number %d on the link, %d bytes)", d.why, i, len(d.data))
 				return
 			}
